@@ -22,7 +22,7 @@ ASSUMPTIONS = ["RFC 9485 matcher in vf/oracle/iregexp.py; Unicode general catego
                "regex and iregexp_check are third-party dependencies of the package: a defect there that surfaces through match()/search() is reported with that attribution"]
 DECIDING_MONITORS = ["M-find"]
 
-ALPHA = list("abcAB01-|&~^$.[](){}*+?\\,") + ["\n", "\r", " ", "é", "\U0001F600", " ", "_", "Z"]
+ALPHA = list("abcAB01-|&~^$.[](){}*+?\\,") + ["\n", "\r", " ", "é", "\U0001F600", " ", "_", "Z", "\u2028", "\u2029", "\x0b", "\x0c", "\x85", "\x1c", "\x1e"]
 NORMAL = [c for c in ALPHA if c not in "()*+.?[\\]{|}" and c not in "^$"]
 ESCAPABLE = list("()*+-.?[\\]^{|}") + ["n", "r", "t"]
 CATS = ["L", "Lu", "Ll", "N", "Nd", "P", "S", "So", "Z", "Zl", "Zs", "C", "Cc", "Pd", "Sm"]
